@@ -221,6 +221,8 @@ def _to_rat(t, atom, depth=0):
         return -_to_rat(t.a[1], atom, depth + 1)
     if t.op == "call" and call_name(t) in ("builtins.float", "builtins.int", "np.float64", "np.int64") and len(t.a[1]) == 1:
         return _to_rat(t.a[1][0], atom, depth + 1)
+    if t.op == "call" and call_name(t) in ("astype", "np.asarray", "np.array", "np.asanyarray") and t.a[1]:
+        return _to_rat(t.a[1][0], atom, depth + 1)  # a cast of whole numbers keeps the numbers
     if t.op == "call" and call_name(t) == "scipy.special.comb" and len(t.a[1]) >= 2 and tm.is_const(t.a[1][1], 2):
         y = _to_rat(t.a[1][0], atom, depth + 1)
         return (y * y - y) / Rat.const(2)
